@@ -176,3 +176,10 @@ package tree
 //@   ensures other_owners_untouched [C02 C01]: forall(i, 0, old(len(lv.les)), old(lv.les[i].Update.owner) != le.Update.owner ==>
 //@            lv.les[i] == old(lv.les[i]) && lv.les[i].Update == old(lv.les[i].Update) && lv.les[i].Delete == old(lv.les[i].Delete) &&
 //@            lv.les[i].DeleteOnlyIntended == old(lv.les[i].DeleteOnlyIntended) && lv.les[i].IsNew == old(lv.les[i].IsNew) && lv.les[i].IsUpdated == old(lv.les[i].IsUpdated))
+
+// ---------------------------------------------------------------------------
+// validation entry point: runs the validators in goroutines and collects their results from a channel;
+// the collection loop is outside the verified subset, the shape of the result is assumed
+//@ func (*RootEntry).Validate
+//@   trusted goroutine + channel collection; the result holds one non-nil record per intent and only non-nil errors
+//@   ensures vrOK(result)
